@@ -153,7 +153,8 @@ struct Manifest {
       t += "\n";
       if (!s.phony) {
         t += "  name = " + s.name + "\n  salt = " + std::to_string(s.salt) + "\n";
-        if (s.pool) t += "  pool = p" + std::to_string(s.pool) + "\n";
+        if (s.pool == 3) t += "  pool = console\n";
+        else if (s.pool) t += "  pool = p" + std::to_string(s.pool) + "\n";
         if (s.depfile) t += "  dep = " + s.outs[0] + ".d\n";
         if (s.rsp) t += "  rsp = " + s.outs[0] + ".rsp\n";
       }
@@ -867,7 +868,7 @@ public:
       else if (kind < 45) s.restat = true;
       else if (kind < 50) s.generator = true;
       else if (kind < 62) s.rsp = true;
-      if (rng.chance(200)) s.pool = (int)rng.range(1, 2);
+      if (rng.chance(250)) s.pool = (int)rng.range(1, 3);   // 3: ninja's console pool (depth 1, output not buffered)
       man.stmts.push_back(s);
       for (auto& o : s.outs) products.push_back(o);
     }
